@@ -182,6 +182,14 @@ def hashcons_check(tier, seed):
             elif (c.bv_width(), c.bv_unsigned_value(), c.constant_value(), c.bv_signed_value()) != (w, u, u, sv):
                 viol.append({"key": "bv-constant-accessors", "value": sv, "width": w,
                              "got": [c.bv_width(), c.bv_unsigned_value(), c.constant_value(), c.bv_signed_value()]})
+            else:
+                asked = [(c.is_bv_constant(), True), (c.is_bv_constant(u), True), (c.is_bv_constant(u + 1), False),
+                         (c.is_bv_constant(width=w), True), (c.is_bv_constant(width=w + 1), False), (c.is_bv_constant(u, w), True),
+                         (c.is_bv_constant(u, w + 1), False), (m.Int(u).is_bv_constant(), False)]
+                if any(bool(g_) != e_ for g_, e_ in asked):
+                    viol.append({"key": "is_bv_constant-disagrees-with-the-node", "value": u, "width": w,
+                                 "asked": "(), (v), (v+1), (width=w), (width=w+1), (v, w), (v, w+1), Int(v).is_bv_constant()",
+                                 "got": [bool(g_) for g_, _ in asked], "expected": [e_ for _, e_ in asked]})
     # real constants from floats: the exact binary fraction, one object with the Fraction spelling
     from fractions import Fraction as _F
     for fv in (0.1, 1.2, 2.0 ** -30, 0.5, 3.0, -0.3, 1e-7):
